@@ -450,6 +450,8 @@ def densify(coords: CoordList, resolution: float) -> CoordList:
     """
     if not resolution > 0:
         raise ValueError(f"Densify resolution must be positive, got {resolution}")
+    if len(coords) < 2:  # empty geometry
+        return list(coords)
     d2 = resolution**2
 
     def short_enough(p1, p2):
@@ -508,6 +510,9 @@ class Geometry(SupportsCoords[float]):
         crs = norm_crs(crs)
         self.crs = crs
         if isinstance(geom, base.BaseGeometry):
+            if geom.has_z:
+                # 2D only, same as for GeoJSON input
+                geom = ops.transform(lambda x, y, z=None: (x, y), geom)
             self.geom = geom
         elif isinstance(geom, dict):
             self.geom = _geojson_to_shapely(geom)
